@@ -1,5 +1,5 @@
 """C11 — no safe operation yields an invalid hash object (the structural clauses; widest check)."""
-from ..rules import validate, tail, fields, eqord, vis, panic, parser, typestate, witness
+from ..rules import validate, tail, fields, eqord, vis, panic, parser, typestate, witness, normal
 
 EXPL = ("Decides: SA-VIS: the representation of all hash/target/generator types is private, no exported safe function hands out &mut "
         "into it, accumulating initialisers/views/encoders/_internal functions are not exported, exported *_unchecked are unsafe - so "
@@ -23,6 +23,7 @@ def run(ctx):
             ctx.guard("C11", "validate", lambda: validate.constructors(ctx, prog))
             continue
         ctx.guard("C11", "vis", lambda: vis.representation_private(ctx, prog))
+        ctx.guard("C11", "validator", lambda: normal.validator_content(ctx, prog))
         ctx.guard("C11", "writers", lambda: tail.classify_writers(ctx, prog))
         ctx.guard("C11", "tail-n", lambda: tail.normalize_in_place(ctx, prog))
         ctx.guard("C11", "tail-c", lambda: tail.compress_expand(ctx, prog))
